@@ -12,8 +12,17 @@ import (
 	"sync"
 	"time"
 
+	"tunnox-core/internal/cloud/factories"
+	"tunnox-core/internal/cloud/managers"
+	"tunnox-core/internal/cloud/repos"
 	"tunnox-core/internal/core/storage"
 	"tunnox-core/internal/protocol/session/connstate"
+)
+
+const (
+	thStConnect = 4 // n c x   cloud control ConnectClient(x, node n, conn c)        [GetState ; SetState]
+	thStEnsure  = 5 // n c x   EnsureClientOnline(x, n, c) (a heartbeat)             [GetState ; SetState]
+	thStDisc    = 6 // n c x   DisconnectClientIfMatch(x, n, c) (close / stale sweep) [GetState ; DeleteState if it matched]
 )
 
 const (
@@ -23,7 +32,8 @@ const (
 	thRefresh = 3 // n c
 )
 
-var thName = map[int]string{0: "FindClientNode", 1: "RegisterConnection", 2: "UnregisterConnection", 3: "RefreshConnection"}
+var thName = map[int]string{0: "FindClientNode", 1: "RegisterConnection", 2: "UnregisterConnection", 3: "RefreshConnection",
+	4: "ConnectClient", 5: "EnsureClientOnline", 6: "DisconnectClientIfMatch"}
 
 type gate struct {
 	arrive chan int
@@ -39,6 +49,7 @@ type gatedStore struct {
 	connPrefix      string
 	clientPrefix    string
 	casOK           bool // the real storage performs CompareAndSwap on client-index keys (else: behave like a storage without CASStore)
+	only            string // when set: only calls on keys with this prefix are gated (and logged); everything else passes through
 }
 
 // does the real storage perform CompareAndSwap on keys of the client-index family?  (hybrid storage may answer
@@ -55,6 +66,9 @@ func storageHasCAS(st storage.Storage, clientPrefix string) bool {
 }
 
 func (s *gatedStore) enter(kind int, key string) {
+	if s.only != "" && !strings.HasPrefix(key, s.only) {
+		return
+	}
 	s.g.arrive <- s.idx
 	<-s.g.resume[s.idx]
 	fam := 2
@@ -115,6 +129,7 @@ type concOut struct {
 	Calls   [][][3]int  `json:"calls"`   // per thread: the storage calls it issued
 	Sched   []int       `json:"sched"`   // the schedule actually executed (given schedule + completion suffix)
 	Final   [][][3]int  `json:"final"`   // per node, per client
+	FinalRS [][][3]int  `json:"final_rs"` // per node, per client: the runtime-state record
 	PropOK  bool        `json:"prop_ok"`
 	PropKey string      `json:"prop_key"`
 	PropMsg string      `json:"prop_msg"`
@@ -133,6 +148,13 @@ func runConc(c concIn) *concOut {
 	w := newWorld(c.Backend, c.Nodes, time.Hour, false)
 	defer w.close()
 	for _, o := range c.Setup {
+		if arg(o, 0) == thStConnect { // runtime-state setup: ConnectClient(x, n, c) through an ungated cloud control
+			cfg := managers.DefaultConfig()
+			cfg.NodeID = nodeName(arg(o, 1))
+			cloud := factories.NewBuiltinCloudControlWithStorageAndServices(w.ctx, cfg, w.st[arg(o, 1)])
+			_ = cloud.ConnectClient(int64(arg(o, 3)), nodeName(arg(o, 1)), connName(arg(o, 2)), "198.51.100.7", "tcp", "V3")
+			continue
+		}
 		w.apply(o, nil)
 	}
 	n := len(c.Threads)
@@ -153,8 +175,26 @@ func runConc(c concIn) *concOut {
 		gs := &gatedStore{Storage: w.st[node], idx: i, g: g, mu: &mu, calls: &calls[i], connPrefix: connPrefix, clientPrefix: clientPrefix,
 			casOK: storageHasCAS(w.st[node], clientPrefix)}
 		store := connstate.NewStore(gs, nodeName(node), time.Hour)
+		if k := arg(t, 0); k >= thStConnect && k <= thStDisc {
+			gs.only = cloudStatePrefix // the client service touches many other keys (node lists, counters, legacy repo): not gated
+		}
 		go func(i int, t []int, store *connstate.Store) {
 			defer close(done[i])
+			if k := arg(t, 0); k >= thStConnect && k <= thStDisc {
+				cfg := managers.DefaultConfig()
+				cfg.NodeID = nodeName(arg(t, 1))
+				cloud := factories.NewBuiltinCloudControlWithStorageAndServices(w.ctx, cfg, gs)
+				x, nd, cn := int64(arg(t, 3)), nodeName(arg(t, 1)), connName(arg(t, 2))
+				switch k {
+				case thStConnect:
+					_ = cloud.ConnectClient(x, nd, cn, "198.51.100.7", "tcp", "V3")
+				case thStEnsure:
+					_ = cloud.EnsureClientOnline(x, nd, cn, "198.51.100.7", "tcp", "V3")
+				case thStDisc:
+					_, _ = cloud.DisconnectClientIfMatch(x, nd, cn)
+				}
+				return
+			}
 			switch arg(t, 0) {
 			case thFind:
 				nodeID, conn, err := store.FindClientNode(w.ctx, int64(arg(t, 2)))
@@ -234,9 +274,85 @@ func runConc(c concIn) *concOut {
 			row = append(row, a)
 		}
 		out.Final = append(out.Final, row)
+		repo := repos.NewClientStateRepository(w.ctx, w.st[m])
+		rrow := [][3]int{}
+		for _, x := range c.Clients {
+			a := [3]int{0, 0, 0}
+			if st, err := repo.GetState(int64(x)); err != nil {
+				a = [3]int{2, 0, 0}
+			} else if st != nil && st.IsOnline() {
+				a = [3]int{1, nodeNum(st.NodeID), connNum(st.ConnID)}
+			}
+			rrow = append(rrow, a)
+		}
+		out.FinalRS = append(out.FinalRS, rrow)
+	}
+	if statePhase(c) {
+		statePredicate(c, out)
+		return out
 	}
 	concPredicate(c, out)
 	return out
+}
+
+const cloudStatePrefix = "tunnox:runtime:client:state:"
+
+func statePhase(c concIn) bool {
+	for _, t := range c.Threads {
+		if k := arg(t, 0); k >= thStConnect && k <= thStDisc {
+			return true
+		}
+	}
+	return false
+}
+
+// runtime-state phases: a single ConnectClient (the new login) races heartbeats / cleanups of OLDER connections;
+// afterwards every node must read the new login's (node, conn)
+func statePredicate(c concIn, out *concOut) {
+	if out.Stuck {
+		out.PropOK, out.PropKey, out.PropMsg = false, "conc-stuck", "an invocation neither reached a storage call nor finished within 20 s"
+		return
+	}
+	var login []int
+	kinds := map[int]bool{}
+	for _, t := range c.Threads {
+		kinds[arg(t, 0)] = true
+		if arg(t, 0) == thStConnect {
+			if login != nil {
+				return // two logins racing: either may win
+			}
+			login = t
+		}
+	}
+	if login == nil {
+		return
+	}
+	want := [3]int{1, arg(login, 1), arg(login, 2)}
+	for xi, x := range c.Clients {
+		if x != arg(login, 3) {
+			continue
+		}
+		for m, row := range out.FinalRS {
+			out.Checked++
+			if row[xi] != want {
+				key := "race-state-other"
+				switch {
+				case kinds[thStDisc] && !kinds[thStEnsure]:
+					key = "race-state-disconnect-read-delete-window"
+				case kinds[thStEnsure] && !kinds[thStDisc]:
+					key = "race-state-touch-read-set-window"
+				}
+				desc := []string{}
+				for _, t := range c.Threads {
+					desc = append(desc, fmt.Sprintf("%s%v", thName[arg(t, 0)], t[1:]))
+				}
+				out.PropOK, out.PropKey = false, key
+				out.PropMsg = fmt.Sprintf("after the concurrent phase {%s} under schedule %v (one entry = one GetState/SetState/DeleteState), the client runtime state of %d read on node %d is %v, expected %v",
+					strings.Join(desc, " || "), out.Sched, x, m+1, row[xi], want)
+				return
+			}
+		}
+	}
 }
 
 // the property on the real code's behaviour in a concurrent phase
